@@ -140,7 +140,7 @@ class RefLexer:
                 best = (i, acc[0], acc)
         return best
 
-    def tokens(self, text, with_ties=False):
+    def tokens(self, text, with_ties=False, hidden=False):
         """Token list (skipped rules omitted) ending with EOF. If with_ties, also returns the
         number of positions where two or more rules matched at the winning length."""
         out = []
@@ -156,7 +156,11 @@ class RefLexer:
             if len(acc) > 1:
                 ties += 1
             name, _, skip = self.rules[ridx]
-            if not skip:
+            if skip == "hidden":
+                # produced on the hidden channel: invisible to the parser, part of the lexer's output
+                if hidden:
+                    out.append(Tok(ridx + 1, name + "@hidden", text[pos:end], pos, end - 1, line, col))
+            elif not skip:
                 out.append(Tok(ridx + 1, name, text[pos:end], pos, end - 1, line, col))
             for ch in text[pos:end]:
                 if ch == "\n":
